@@ -44,6 +44,7 @@ class ClientArg(Arg):
 
 class Marker(Abstract):
     """an opaque object identified by its label (cookie jars, openers, requests ...)"""
+    _immutable = True
 
     def __init__(self, label, **attrs):
         self.label = label; self.attrs = attrs
